@@ -346,7 +346,7 @@ struct WkdRun {
         if (how == 0 || how == 2) { R.jv_wk_precompute(view, pre, sys.params, &ja.l); return; }
         std::vector<MAttr> from = L;
         if (!from.empty() && how == 1) { if (from.size() > 1 && (env.step & 1)) from.erase(from.begin() + (long) (from.size() / 2)); else from[0].id = Bn::mod(Bn::add(from[0].id, Bn(3)), K().two256); }
-        else { bool used[256] = {false}; for (auto& a : L) if (a.idx < 256) used[a.idx] = true; from.clear(); for (int i = sys.l - 1; i >= 0; i--) if (!used[i]) { from.push_back({(uint32_t) i, Bn(7), false}); break; } }   // how == 3 (or empty L): from a list with another slot
+        else { std::vector<bool> used((size_t) sys.l + 1, false); for (auto& a : L) if (a.idx < used.size()) used[a.idx] = true; from.clear(); for (int i = sys.l - 1; i >= 0; i--) if (!used[i]) { from.push_back({(uint32_t) i, Bn(7), false}); break; } }   // how == 3 (or empty L): from a list with another slot
         JAttrs jf(from, false); R.jv_wk_precompute(view, pre, sys.params, &jf.l); env.lib_calls++;
         if (how == 3 && !from.empty()) { std::vector<MAttr> none; JAttrs jn(none, false); R.jv_wk_adjust_precomputed(view, pre, sys.params, &jf.l, &jn.l); R.jv_wk_adjust_precomputed(view, pre, sys.params, &jn.l, &ja.l); env.count("probe:precomputed_value_obtained_by_adjustment_chain"); }
         else { R.jv_wk_adjust_precomputed(view, pre, sys.params, &jf.l, &ja.l); env.count("probe:precomputed_value_obtained_by_adjustment"); }
@@ -675,7 +675,10 @@ struct WkdScenario : Scenario {
         if (kn("hopsizes", 0)) {
             // every slot count once: a system with n slots, the master's delegate key with all n slots free (and one with the first slot fixed),
             // parameters and keys through the store in both forms - whatever a marshalling loop does per batch of k entries meets every residue
-            int n = (int) (kn("__idx", 0) % 90); p.cfg["l"] = n; p.cfg["sig"] = (n / 3) % 2;
+            int n = (int) (kn("__idx", 0) % 90); p.cfg["sig"] = (n / 3) % 2;
+            // hopsizes = 2: objects whose marshalled form passes 2^16 bytes (654 slots uncompressed, 1259 compressed) and 2^8 / 2^10 entries
+            if (kn("hopsizes", 0) == 2) { static const int big[] = {700, 257, 1300, 1024}; n = big[kn("__idx", 0) % 4]; }
+            p.cfg["l"] = n;
             std::vector<std::string> none((size_t) n, "-"), one = none; if (n) one[0] = "f:2";
             p.ops.push_back({"KEYGEN", {(int64_t) (r.next() >> 1), 0, 0}, none}); p.ops.push_back({"KEYGEN", {(int64_t) (r.next() >> 1), 0, 0}, one});
             for (int comp = 0; comp < 2; comp++) { p.ops.push_back({"HOP", {2, 0, comp, 1}, {}}); p.ops.push_back({"HOP", {2, 1, comp, (n & 1)}, {}}); p.ops.push_back({"HOP", {0, 0, comp, 1}, {}}); }
